@@ -528,7 +528,11 @@ class C19(vlib.Driver):
             return t
         if case["kind"] == "resize":
             dval = 1.0 / case["lam"]
-            return (f"check_resize {self.q_layer(obs['old'])} {self.q_layer(obs['new'])} {coq_Q(dval)} "
+            # which variant of the diagonal fill does this tree exhibit? (judged by the oracle, not by K)
+            w_old = dict(map(tuple, obs["old"])).get(0, 0)
+            w_new = dict(map(tuple, obs["new"])).get(0, 0)
+            shifted = all(obs["M"][i][i] != 0 for i in range(w_old, min(w_new, len(obs["M"])))) if w_new > w_old else True
+            return (f"check_resize {vlib.coq_bool(shifted)} {self.q_layer(obs['old'])} {self.q_layer(obs['new'])} {coq_Q(dval)} "
                     f"{self.q_mat(obs['S'])} {self.q_mat(obs['M'])}")
         ops, obl = [], []
         if any(x is None for rec in [obs["init"]] + obs["trace"] if rec["sigma"] for row in rec["sigma"] for x in row) or \
@@ -561,8 +565,15 @@ class C19(vlib.Driver):
             elif op[0] == "reload":
                 ops.append("Reload")
             obl.append(self.q_obs(rec))
+            if not rec["bound"]:
+                # the harness re-bound exp_layer itself so that the history could go on (run_hist, "workarounds"):
+                # that assignment is exactly what MutDirect models
+                ops.append(f"MutDirect {self.q_layer(rec['live'])}")
+                obl.append(self.q_obs(dict(rec, bound=True, sigma=None)))
         i0 = obs["init"]
-        return (f"check_hist {coq_Q(case['lam'])} {coq_Q(TOL)} {self.q_layer(i0['live'])} {self.q_obs(i0)} "
+        # which variant of the checkpoint reload does this tree exhibit? (judged by the oracle, not by K)
+        rr = all(rec["bound"] for op, rec in zip(case["ops"], obs["trace"]) if op[0] == "reload")
+        return (f"check_hist {vlib.coq_bool(rr)} {coq_Q(case['lam'])} {coq_Q(TOL)} {self.q_layer(i0['live'])} {self.q_obs(i0)} "
                 f"[{'; '.join(ops)}] [{'; '.join(obl)}]")
 
     # ---------- oracle: the property stated directly on the implementation's behaviour
